@@ -209,12 +209,13 @@ def gen_small_products(tier, rng):
     edge = [0, 1, 2, 9, 10, 34, 35, 68, 69, 70, 127 - 59, 128 - 59, 137, 138, 196, 197, 198, 255, 256, 300, 541, 599, 600]
     for a in (range(0, 601) if tier == "thorough" else sorted(set(edge + rng.sample(range(601), 12)))):
         step = 1 if tier == "thorough" or a in (0, 1, 68, 69) else 7
-        yield {"a": a, "b": [rng.randrange(step), 601 - a, step], "c": rng.choice([1, 2, -3, 5]), "d": rng.choice([1, -1, 3, 4])}
+        yield {"a": a, "b": [rng.randrange(step), 601 - a, step], "c": rng.choice([1, 2, -3, 5]), "d": rng.choice([1, -1, 3, 4]),
+               "array": tier != "thorough" or a % 8 == 0 or a in edge}
 
 
 @check("C20", "multiply.monomial_products_sum_le_600", gen_small_products, functions=("numpoly.multiply", "numpoly.cmultiply", "numpoly.clean_attributes"),
        note="exhaustive (thorough): all (a, b) with a+b <= 600, one input per a; (c*q0**a)*(d*q0**b) as 0-d monomials built directly, "
-            "both operand orders, plus once per a the product with the array [d*q0**b for all b]; quick: 35 values of a incl. "
+            "operand order alternating with b, plus for every 8th a and 23 boundary a the product with the array [d*q0**b for all b]; quick: 35 values of a incl. "
             "68/69/137/138/196/197/255/256 with every 7th b (every b for a in {0,1,68,69}); no exception allowed")
 def small_products(inp):
     import numpoly
@@ -229,7 +230,7 @@ def small_products(inp):
         msg = r if r is None or isinstance(r, str) else expect_mono(r, [a + b], c * d, ["q0"], what)
         if msg:
             return msg
-    if not bs:
+    if not bs or not inp["array"]:
         return None
     ys = numpoly.polynomial_from_attributes([[b] for b in bs], list(d * numpy.eye(len(bs), dtype="int64")), ("q0",))
     what = f"({c}*q0**{a}) * [{d}*q0**b for b in range{tuple(inp['b'])}]"
